@@ -78,6 +78,20 @@ pub fn run_c12(cx: &Ctx) -> i32 {
         lens.push((l, total, n));
         total += n;
     }
+    // long templates: an ASCII stretch of every length up to 130 followed by a multi-byte
+    // character and a reference (buffer boundaries inside the expander)
+    let mut long_templates: Vec<String> = Vec::new();
+    for n in 0..=130usize {
+        for ch in ["é", "€", "😀"] {
+            for tail in ["", "$1", "$$", "\\1"] {
+                long_templates.push(format!("{}{}{}", "a".repeat(n), ch, tail));
+                long_templates.push(format!("$1{}{}{}", "b".repeat(n), ch, tail));
+            }
+        }
+    }
+    let n_long = long_templates.len();
+    lens.push((usize::MAX, total, n_long));
+    total += n_long;
     let tallies = par::run_workers(4096, |_w, claimer| {
         engine::quiet_panics();
         let mut t = Tally::new();
@@ -89,7 +103,7 @@ pub fn run_c12(cx: &Ctx) -> i32 {
                 if !claimer.is_mine(idx) {
                     continue;
                 }
-                let tpl = template(i, l);
+                let tpl = if l == usize::MAX { long_templates[i].clone() } else { template(i, l) };
                 t.programs += 1;
                 let mut viol = |t: &mut Tally, what: String| {
                     t.violation(
@@ -182,7 +196,7 @@ pub fn run_c12(cx: &Ctx) -> i32 {
         t,
         Finish {
             rule: format!(
-                "all {} templates of length <= {} over {:?} x 5 capture sets (named, numbered with 11 groups, unmatched groups, digit-led names, multi-byte) x both expanders (default and Python-style) x 5 entry points (expansion, append_expansion, write_expansion, write_expansion_vec, Captures::expand) which must all agree; oracle: reference expander written from the documentation (frmc-core/src/expandref.rs); expansion(escape(s)) == s for every string of the same space; check accepts only templates all of whose references name an existing group; non-trivial = expansions that differ from the template",
+                "all {} templates: every template of length <= {} over {:?} plus 3 144 long templates (an ASCII stretch of every length 0..130, a multi-byte character, a reference) x 5 capture sets (named, numbered with 11 groups, unmatched groups, digit-led names, multi-byte) x both expanders (default and Python-style) x 5 entry points (expansion, append_expansion, write_expansion, write_expansion_vec, Captures::expand) which must all agree; oracle: reference expander written from the documentation (frmc-core/src/expandref.rs); expansion(escape(s)) == s for every string of the same space; check accepts only templates all of whose references name an existing group; non-trivial = expansions that differ from the template",
                 total, max_len, ALPHA
             ),
             exhaustive: true,
